@@ -206,13 +206,15 @@ func (t *Tpl) writeNode(w io.Writer, node *node, ctx *Ctx) (err error) {
 						}
 					}
 				}
-				ctx.bufX = raw
+				// The modifier gets a cell of its own for the result: bufX is the scratch of Ctx.get, which the
+				// modifier may call through the public Ctx.Get.
+				ctx.bufM = raw
 				// Call the modifier func.
-				ctx.Err = mod_.fn(ctx, &ctx.bufX, ctx.bufX, ctx.bufA)
+				ctx.Err = mod_.fn(ctx, &ctx.bufM, ctx.bufM, ctx.bufA)
 				if ctx.Err != nil {
 					break
 				}
-				raw = ctx.bufX
+				raw = ctx.bufM
 			}
 		}
 		ctx.noesc = false
@@ -305,13 +307,13 @@ func (t *Tpl) writeNode(w io.Writer, node *node, ctx *Ctx) (err error) {
 							}
 						}
 					}
-					ctx.bufX = raw
+					ctx.bufM = raw
 					// Call the modifier func.
-					ctx.Err = mod_.fn(ctx, &ctx.bufX, ctx.bufX, ctx.bufA)
+					ctx.Err = mod_.fn(ctx, &ctx.bufM, ctx.bufM, ctx.bufA)
 					if ctx.Err != nil {
 						break
 					}
-					raw = ctx.bufX
+					raw = ctx.bufM
 				}
 			}
 			if ctx.Err != nil {
